@@ -57,6 +57,7 @@ void vf_count(const char *key, long n);
 void vf_max(const char *key, long v);
 /* harness (not property) error: aborts the run with exit code 2 */
 void vf_harness_error(const char *fmt, ...) __attribute__((format(printf, 1, 2)));
+void vf_soft_error(const char *fmt, ...) __attribute__((format(printf, 1, 2)));
 /* samples: first few calls are kept */
 void vf_sample(const char *fmt, ...) __attribute__((format(printf, 1, 2)));
 /* mark the enumeration as cut short for a reason */
